@@ -41,6 +41,11 @@ chk('C10', 'TLA+ model of ports.py at shared-access granularity (PortImpl) model
     'Thread switches happen only at shared-state accesses (lock acquire/release, deque test/pop/append, wire byte read/write, sleep), not at arbitrary bytecodes. The device port is a harness double. Verdicts only at PortCore level; PortImpl divergence is counted.',
     'DESIGN.md 5/C10')
 
+chk('C11', 'TLA+ sequential lifecycle machine with device scripts (PortLife, PortLifeMulti) enumerated by TLC; every call history replayed on the real port classes with a counting/budgeted sleep hook',
+    'TLC enumerates every device script (items nothing / arrive / close-itself / arrive-then-close) of up to 2-3 items x every sequence of 3 (thorough 4-5) calls from send / receive / poll / iterate / iter_pending / close / context-manager exit, for a BaseIOPort, BaseInput and BaseOutput device double (autoreset on/off), EchoPort, the IOPort wrapper and a MultiPort over two devices (both member orders), checking CloseOnce, SendAfterCloseRaises, DrainBeforeStop, IterEndsCleanly, NonBlockingNeverWaits, ReturnsWhenDeliverable, Conservation. Each history is replayed on the real classes: result or exception class, number of sleep() calls, number of device polls per call, final queue, closed flag and the exact device log (32 reset messages once, then one _close; sent messages are copies).',
+    'Device ports are doubles; blocking calls are only issued when the script lets them return; wrapper members do not close themselves; receive() on a closed drained port may raise ValueError or OSError.',
+    'DESIGN.md 5/C11')
+
 
 def build(not_applicable):
     checks = []
